@@ -297,7 +297,24 @@ def decode_run(o):
 def run_sem(ctx, ck, streams, oracles, quick_n, thorough_n):
     for name in streams:
         n = quick_n if ctx.tier == "quick" else thorough_n
-        s = ck.run_stream(ctx, name, n)
+        run_sem_round(ctx, ck, name, oracles, n, 0)
+        # The model no longer matches the code but no failing input yet: search harder (more programs, new seeds).
+        rounds = 0
+        while rounds < 3 and any(sfx for _, sfx in ctx.violations) and not any(not sfx for _, sfx in ctx.violations):
+            rounds += 1
+            ctx.notes.append("correspondence broke without a failing input: escalation round %d with %d programs" % (rounds, n * 4 * rounds))
+            before = len(ctx.violations)
+            run_sem_round(ctx, ck, name, oracles, n * 4 * rounds, 1000 * rounds)
+            if any(not sfx for _, sfx in ctx.violations[before:]):
+                # a concrete failing input was found: drop the input-less reports
+                ctx.violations = [v for v in ctx.violations if not v[1]]
+                break
+            ctx.violations = ctx.violations[:before]
+
+
+def run_sem_round(ctx, ck, name, oracles, n, seed_off):
+    if True:
+        s = ck.run_stream(ctx, name, n, seed_off=seed_off)
 
         def oracle(k, s):
             res = False
@@ -336,6 +353,9 @@ def run_c04(ctx, ck):
 
 def run_c16(ctx, ck):
     run_sem(ctx, ck, ["sem-all", "suite"], [syntax_oracle], 200, 6000)
+    si = ck.run_stream(ctx, "imports", 80 if ctx.tier == "quick" else 3000)
+    compare(ctx, si, "import graphs: every called label/function must be contained", lambda k, s: {}, describe_files,
+            lambda k, s: "ok:" in (s["impl"].get(k) or ""), oracle=syntax_oracle)
     s = ck.run_stream(ctx, "fuzz", 600 if ctx.tier == "quick" else 20000)
     compare(ctx, s, "fuzz: accepted near-miss programs must be well-formed too", lambda k, s: {}, describe_prog,
             lambda k, s: "ok:" in (s["impl"].get(k) or ""), oracle=syntax_oracle)
@@ -381,6 +401,29 @@ def run_c06(ctx, ck):
         ctx.samples.append({"source": prog_source(s["cases"].get(k) or s2["cases"].get(k))[-300:], "verdict": verdict_of_emit((s["impl"].get(k) or s2["impl"].get(k)))})
 
 
+# ---------------------------------------------------------------- C07
+def run_c07(ctx, ck):
+    import subprocess
+    IGNORED_KEYS.update({"bashsyntax", "batchsyntax"})
+    d = ctx.work + "/c07table"
+    subprocess.run(["python3", "/verif/tools/c07table.py", "--cases", d, "--std", "/verif/.build/std"], check=True, stdout=subprocess.DEVNULL)
+    s = ck.run_cases_dir(ctx, d)
+    compare(ctx, s, "scoping table: (definition site, use site) pairs, placements of break/continue/return/func, import boundaries", lambda k, s: {},
+            describe_files, lambda k, s: True, oracle=accept_oracle)
+    ctx.cov["table"] = s["meta"]
+    ctx.cov["exhaustive"] = True
+    n = 400 if ctx.tier == "quick" else 20000
+    s2 = ck.run_stream(ctx, "typed-mutants", n, seed_off=7)
+    compare(ctx, s2, "generated programs, some with one name moved out of scope / one construct misplaced", lambda k, s: {}, describe_prog,
+            lambda k, s: True, oracle=accept_oracle)
+    s3 = ck.run_stream(ctx, "fuzz", 300 if ctx.tier == "quick" else 10000, seed_off=7)
+    compare(ctx, s3, "fuzz (import graphs with private/undefined names): verdicts and AST equal to the model's", lambda k, s: {}, describe_files,
+            lambda k, s: True, oracle=totality_oracle)
+    ctx.cov.setdefault("distribution", {}).update(s2["meta"])
+    for k in list(s["cases"])[:2]:
+        ctx.samples.append({"entry": k[1], "source": prog_source(s["cases"][k])[:300], "verdict": verdict_of_emit(s["impl"].get(k))})
+
+
 # ---------------------------------------------------------------- C14
 def run_c14(ctx, ck):
     n = 40 if ctx.tier == "quick" else 1500
@@ -419,6 +462,12 @@ SEM_TRUST = ["coq/Sem/Src.v is the specification of program meaning (validated o
              "the generator's notion of 'defined behaviour' (harness/proggen.go) bounds what is explored"]
 
 PROPS = {
+    "C07": {"run": run_c07,
+            "rule": "EXHAUSTIVE table (tools/c07table.py): 96 single-file programs pairing a definition site with a use site over sibling/nested blocks, loop headers, "
+                    "function boundaries, every placement of break/continue/return/func, redefinitions, call-before-definition, plus 9 import-boundary programs; "
+                    "generated programs with a misplaced name/construct; fuzzed import graphs; every entry distinct and non-trivial",
+            "trusted": ["tools/c07table.py encodes lexical scoping (accept iff the use is inside the scope of its definition)"],
+            "assumptions": ["Go's terminating-statement analysis is not demanded: a value-returning function must end in return"]},
     "C06": {"run": run_c06,
             "rule": "EXHAUSTIVE table (tools/c06table.py): 58 typed positions x 8 offered types x 5 contexts + returned values = 2344 single-position programs with "
                     "the verdict Go's rules / the README signatures prescribe, each through both converters; plus generated programs (unsafe mode) of which "
